@@ -813,8 +813,9 @@ class Transaction:
 
         try:
 
-            # pre-chosen inputs must not be picked again while balancing
-            await ledger.reserve_outputs([txi.txo_ref.txo for txi in tx._inputs if txi.txo_ref.txo is not None])
+            # pre-chosen inputs must not be picked again while balancing, nor by a build that is selecting right now
+            async with ledger._utxo_reservation_lock:
+                await ledger.reserve_outputs([txi.txo_ref.txo for txi in tx._inputs if txi.txo_ref.txo is not None])
 
             for _ in range(5):
 
